@@ -105,8 +105,14 @@ def statusAt (obs : MNode) (id : String) : String :=
   | some n => n.status.toString
   | none => "absent"
 
+/-- `active` (still a routing candidate) or `down` (left / unreachable / forgotten): which
+of the latter depends on the real failure detectors, so the line only carries the distinction
+that matters for routing (the harness oracle asserts `left` at the notified peers) -/
+def routed (obs : MNode) (id : String) : String :=
+  if statusAt obs id = "active" then "active" else "down"
+
 def seen (ns : List MNode) (lost : String) : String :=
-  "[" ++ joinWith "," ((alive ns).map fun m => m.id ++ ":" ++ statusAt m lost) ++ "]"
+  "[" ++ joinWith "," ((alive ns).map fun m => m.id ++ ":" ++ routed m lost) ++ "]"
 
 /-- register a new upstream connection for `ep` on node `id` and let the cluster settle -/
 def attach (s : St) (id : String) (ep : String) : St :=
